@@ -126,10 +126,10 @@ def findBounds (s : LDb) (before : Nat → Bool) (nlvl : Nat) : Chute × Nat × 
 
 /-! ### the two structural operations -/
 
-/-- `for (i = 0; i <= lvl; ++i) block[i]->n[i] = val[i]`, from level `i` on -/
-def setLinksFrom (s : LDb) : Nat → List (Nat × Nat) → LDb
-  | _, [] => s
-  | i, (x, v) :: rest => setLinksFrom (setLink s x i v) (i + 1) rest
+/-- `for (i = 0; i < k; ++i) lo[i]->n[i] = val i` — the loops of "Fix levels" and of `_lx_del_sblk_lw` -/
+def fixLevels (s : LDb) (lo : List Nat) (val : Nat → Nat) : Nat → LDb
+  | 0 => s
+  | k + 1 => setLink (fixLevels s lo val k) (lo.getD k 0) k (val k)
 
 def bump (l : List Nat) (i : Nat) : List Nat := l.set i (l.getD i 0 + 1)
 
@@ -145,7 +145,7 @@ def insert (s : LDb) (before : Nat → Bool) (nid lvl : Nat) : LDb :=
   -- nb->p0 = plower[0];  nb->n[i] = pupper[i]  (the tail's block number is 0)
   let nb : LNode := ⟨nid, lvl, c.upper, c.lower.getD 0 s.blk⟩
   -- plower[i]->n[i] = nblk
-  let s2 := setLinksFrom s1 0 (c.lower.map fun x => (x, nid))
+  let s2 := fixLevels s1 c.lower (fun _ => nid) (lvl + 1)
   { s2 with heap := nb :: s2.heap, lcnt := bump s2.lcnt lvl }
 
 /-- the new node becomes node number `pos` of the level-0 chain (`pos` nodes stay before it): the
@@ -170,7 +170,7 @@ def remove (s : LDb) (t : Nat) : LDb :=
   | none => s
   | some rb =>
     -- plower[i]->n[i] = upper->n[i]
-    let s1 := setLinksFrom s 0 (c.lower.zip rb.n)
+    let s1 := fixLevels s c.lower (fun i => rb.n.getD i 0) (rb.lvl + 1)
     -- nb = block after upper (the database tail when 0); nb->p0 = rb.p0
     let s2 := setP0 s1 (rb.n.getD 0 0) rb.p0
     { s2 with heap := s2.heap.filter (·.id ≠ t), lcnt := unbump s2.lcnt rb.lvl }
